@@ -110,8 +110,14 @@ def cases(tier, seed):
     fama_models = structs + [DEEP1, DEEP2] + list(families.models()) + [_with(CAR5, ts) for ts in _ctc_lists(('Bb', 'Dc', 'Ad', 'Ee'), reqs=True)[-2:-1]]
     fama_models.append(_with(CAR5G, [('REQUIRES', 'Bb', 'Dc'), ('EXCLUDES', 'Ad', 'Ee'), ('REQUIRES', 'Ee', 'Bb')]))
     fama_models.append(_with(CAR5G, [('REQUIRES', 'Bb', 'Dc'), ('EXCLUDES', 'Ad', 'Ee'), ('REQUIRES', 'Bb', 'Dc')]))
+    fama_models.append(_with(CAR5G, [('EXCLUDES', 'Bb', 'Bb')]))
+    fama_models.append(_with(CAR5G, [('REQUIRES', 'Dc', 'Dc'), ('EXCLUDES', 'Ad', 'Ad'), ('REQUIRES', 'Bb', 'Dc')]))
     casey = M(F('Fa', [R(0, 1, [F('Cache')]), R(0, 1, [F('cache')]), R(0, 1, [F('Disk')]), R(0, 1, [F('disk')])]))
     fama_models.append(_with(casey, [('REQUIRES', 'Cache', 'Disk'), ('REQUIRES', 'cache', 'disk'), ('EXCLUDES', 'Cache', 'disk')]))
+    for first, second in (('Wifi', 'WIFI'), ('WIFI', 'Wifi'), ('Stra\u00dfe', 'STRASSE')):
+        two = M(F('Fa', [R(0, 1, [F(first)]), R(0, 1, [F('Bb')]), R(0, 1, [F(second, [R(1, 1, [F('Ee')])])])]))
+        fama_models.append(_with(two, [('REQUIRES', first, 'Bb')]))
+        fama_models.append(_with(two, [('EXCLUDES', 'Bb', second), ('REQUIRES', 'Ee', first)]))
     # binary relations whose cardinality is not one of [0..1] / [1..1] ("read as written")
     for (a, b) in ((1, 2), (0, 3), (2, 2), (0, 0), (1, -1)):
         fama_models.append(M(F('Fa', [R(a, b, [F('Bb', [R(0, 1, [F('Ee')])])]), R(0, 1, [F('Dc')])])))
@@ -135,12 +141,18 @@ def cases(tier, seed):
             yield ('AFM', m, k)
     for i in range(len(AFM_MUST_RAISE)):
         yield ('AFMX', i)
+    for i in range(len(FIDE_MUST_RAISE)):
+        yield ('FIDEX', i)
     # ---- Glencoe
     glen_models = [m for m in structs if glencoe.in_fragment(m)] + [DEEP1, DEEP2] + [m for m in families.models() if glencoe.in_fragment(m)]
     for nm in ('Cafe\u0301', '\u212b', 'a\ufeffb'):
         mm = rt.deviation(CAR5G, 1, ('name', nm))
         glen_models.append((mm[0], (('c1', ('IMPLIES', nm, 'Dc')),)))
     glen_models += [_with(CAR5G, ts) for ts in _ctc_lists(('Bb', 'Dc', 'Ad', 'Ee'), xor=True)]
+    # [a..b] groups whose upper bound exceeds the number of members, next to a mandatory sibling ("read as written")
+    for (a, b) in ((2, 3), (1, 5), (0, 4), (2, 2)):
+        glen_models.append(M(F('Fa', [R(1, 1, [F('Cam')]), R(a, b, [F('Mp'), F('Ra')])])))
+        glen_models.append(M(F('Fa', [R(1, 1, [F('Cam', [R(a, b, [F('Mp'), F('Ra')]), R(1, 1, [F('Zo')])])])])))
     glen_models += [_with(CAR8G, [_chain('AND', N7)]), _with(CAR8G, [_chain('OR', N7), ('NOT', _chain('AND', N7[:6]), None)]),
                     _with(CAR8G, [('IMPLIES', _chain('OR', N7[:5]), _chain('AND', N7[1:]))])]
     cover = [_key(glencoe, c) for c in glencoe.covering_choices()]
@@ -155,6 +167,20 @@ def cases(tier, seed):
         yield ('CORPUS', rel)
 
 
+# FeatureIDE rule elements the library has no counterpart for (atmost1, ...), at the top of a rule and
+# nested in every supported connective: the document must be refused, not read as something else
+_UNK = '<atmost1><var>Bb</var><var>Dc</var></atmost1>'
+FIDE_MUST_RAISE = [
+    _UNK,
+    '<imp><var>Bb</var>%s</imp>' % _UNK,
+    '<imp>%s<var>Bb</var></imp>' % _UNK,
+    '<eq><var>Bb</var>%s</eq>' % _UNK,
+    '<not>%s</not>' % _UNK,
+    '<conj><var>Bb</var>%s</conj>' % _UNK,
+    '<disj>%s<var>Dc</var></disj>' % _UNK,
+    '<imp><var>Bb</var><not>%s</not></imp>' % _UNK,
+    '<imp><var>Bb</var><unknownop><var>Dc</var></unknownop></imp>',
+]
 AFM_MUST_RAISE = [
     "Bb.att > 3;", "Bb.att == 3 AND Dc;", "Bb.att + Dc.att >= 3;", "NOT (Bb.att < 2);", "Bb IMPLIES (Dc.att != 1);",
 ]
@@ -181,11 +207,13 @@ def describe(case):
         return 'CORPUS:' + case[1]
     if case[0] == 'AFMX':
         return 'AFMX:' + AFM_MUST_RAISE[case[1]]
+    if case[0] == 'FIDEX':
+        return 'FIDEX:' + FIDE_MUST_RAISE[case[1]]
     return '%s:%s | choices=%s' % (case[0], sh.model_str(case[1]), ','.join(str(x) for x in case[2]))
 
 
 def reduce(case):
-    if case[0] in ('CORPUS', 'AFMX', 'GLENX'):
+    if case[0] in ('CORPUS', 'AFMX', 'GLENX', 'FIDEX'):
         return
     kind, model, k = case
     if kind == 'FAMA':
@@ -302,6 +330,20 @@ def check(case):
             engine.validated()
             return []
         return [Fail('unrepresentable-construct-accepted', {'doc': doc, 'model': cm._safe_str(bd.observe(fm))})]
+    if kind == 'FIDEX':
+        doc = ('<?xml version="1.0" encoding="UTF-8" standalone="no"?>\n<featureModel>\n<struct>\n<and mandatory="true" name="Fa">\n'
+               '<feature name="Bb"/>\n<feature name="Dc"/>\n</and>\n</struct>\n<constraints>\n<rule>\n%s\n</rule>\n</constraints>\n</featureModel>\n'
+               % FIDE_MUST_RAISE[case[1]])
+        path = engine.tmppath('c09x.xml')
+        open(path, 'w', encoding='utf8').write(doc)
+        try:
+            fm = FeatureIDEReader(path).transform()
+            engine.tick()
+            shown = cm._safe_str(bd.observe(fm))
+        except Exception:  # noqa: BLE001
+            engine.validated()
+            return []
+        return [Fail('unrepresentable-construct-accepted', {'doc': doc[:400], 'model': shown})]
     if kind == 'GLENX':
         doc = glencoe.emit(case[1], _unkey(glencoe, case[2]), unknown_term=True)
         path = engine.tmppath('c09x.gfm.json')
